@@ -11,7 +11,7 @@ use std::time::Duration;
 
 pub const META: Meta = Meta {
     level: "exploration",
-    rule: "keys = base ^ d for base in {sha256(peer0), 0, 2^256-1 (thorough: + sha256(peer1))} and d in {0,1,2,3, 2^k-1, 2^k, 2^k+1 for k in {7,8,63,64,255} (thorough: + k in {1,15,16,127,128,254}), 2^256-1}; every ordered triple (a,b,c) of the de-duplicated key set is evaluated (identity, symmetry, triangle, unidirectionality, for_distance inverse, Key<PeerId> forwarders); every boundary distance is evaluated for ilog2 / BucketIndex::new / BucketIndex::range / KBucketRef::{range,contains} / position in KBucketsTable::iter after a real insert. Non-trivial = triples of pairwise different keys, and non-zero distances for the bucket laws.",
+    rule: "keys = base ^ d for base in {sha256(peer0), 0, 2^256-1 (thorough: + sha256(peer1))} and d in {0,1,2,3, 2^k-1, 2^k, 2^k+1 for k in {7,8,63,64,255} (thorough: + k in {1,15,16,127,128,254}), 2^256-1}; every ordered triple (a,b,c) of the de-duplicated key set is evaluated (identity, symmetry, triangle, unidirectionality, for_distance inverse, Key<PeerId> forwarders); every boundary distance is evaluated for ilog2 / BucketIndex::new / BucketIndex::range / KBucketRef::{range,contains} / position in KBucketsTable::iter after a real insert; the membership predicate KBucketRef::contains of all 256 buckets for the zero distance, every one-bit distance, every two-bit distance (all i < j in 0..256) and three-bit distances with gaps around the 64-bit limb size (1, 63, 64, 65, 128; thorough more): true exactly for the bucket of the highest set bit. Non-trivial = triples of pairwise different keys, and non-zero distances for the bucket laws.",
     explanation: "Complete enumeration (E3) of all triples over the boundary key set and of all boundary distances; expected values are computed with independent 256-bit byte arithmetic.",
     assumptions: &["boundary-structured key set (small-scope): interior bit patterns are represented by sha256(peer) bases", "KeyBytes' derived Debug prints its 32 bytes (validated against Key::hashed_bytes at start)"],
 };
@@ -209,6 +209,50 @@ fn bucket_laws(base: &K, dn: &str, db: &B) -> Result<(), String> {
     Ok(())
 }
 
+/// membership predicate `KBucketRef::contains` of all 256 buckets for the distance with exactly
+/// the given bits set: true for the bucket of the highest set bit and for no other bucket
+fn membership(table: &mut Table, bits: &[usize]) -> Result<(), String> {
+    let mut d = [0u8; 32];
+    for b in bits {
+        d[31 - b / 8] |= 1 << (b % 8);
+    }
+    let hb = kx::high_bit(&d);
+    let got = table.buckets_contain(&kx::dist_of(&d));
+    if got.len() != 256 {
+        return Err(format!("contains :: iter() yields {} buckets", got.len()));
+    }
+    for (i, c) in got.iter().enumerate() {
+        if *c != (Some(i) == hb) {
+            return Err(format!("contains :: bucket {i}.contains(distance with bits {bits:?} set) = {c}, highest set bit = {hb:?}"));
+        }
+    }
+    Ok(())
+}
+
+/// bit sets for the membership check: every single bit, every pair i < j, and triples around
+/// the 64-bit limb boundaries / word-size offsets
+fn membership_sets(thorough: bool) -> Vec<Vec<usize>> {
+    let mut v: Vec<Vec<usize>> = vec![vec![]];
+    for i in 0..256 {
+        v.push(vec![i]);
+        for j in i + 1..256 {
+            v.push(vec![i, j]);
+        }
+    }
+    let offs: &[usize] = if thorough { &[1, 2, 31, 32, 33, 62, 63, 64, 65, 66, 127, 128, 129, 191, 192, 193] } else { &[1, 63, 64, 65, 128] };
+    for i in 0..256 {
+        for a in offs {
+            for b in offs {
+                let (j, k) = (i + a, i + a + b);
+                if k < 256 {
+                    v.push(vec![i, j, k]);
+                }
+            }
+        }
+    }
+    v
+}
+
 fn sig(m: &str) -> String {
     mc::bfs::signature_of(m)
 }
@@ -265,6 +309,33 @@ pub fn run(ctx: &Ctx) -> Outcome {
             }
         }
     }
+    // bucket membership predicate (KBucketRef::contains) over all two-bit distances etc.
+    {
+        let mut t = Table::new(keys[0].key, 2, Duration::from_secs(1));
+        let sets = membership_sets(thorough);
+        let mut far_pairs = 0u64;
+        for bits in &sets {
+            out.evaluations += 1;
+            if let Err(m) = mc::catch(|| membership(&mut t, bits)).unwrap_or_else(|p| Err(format!("panic :: {p}"))) {
+                let class = match bits.len() {
+                    0 | 1 => "one bit or zero".to_string(),
+                    _ => format!("second-highest relevant gap {} 64", if bits[1] - bits[0] >= 64 { ">=" } else { "<" }),
+                };
+                out.violation(format!("contains [{} bits set, {class}]", bits.len()), m, json!({"kind": "contains", "thorough": thorough, "bits": bits}));
+            }
+            if bits.len() == 2 {
+                out.nontrivial_h(0x4000_0000 + (bits[0] * 256 + bits[1]) as u64);
+                if bits[1] - bits[0] >= 64 {
+                    far_pairs += 1;
+                }
+            }
+        }
+        out.count("contains_distances", sets.len() as u64);
+        out.count("contains_two_bit_distances_with_gap_of_64_or_more", far_pairs);
+        if far_pairs == 0 {
+            out.machinery("vacuity: no two-bit distance with the bits 64 or more apart");
+        }
+    }
     // bucket laws: every boundary distance from every base key
     let base_idx: Vec<usize> = keys.iter().enumerate().filter(|(_, k)| k.name.ends_with("^0")).map(|(i, _)| i).collect();
     let mut zero_seen = 0u64;
@@ -303,6 +374,11 @@ fn replay(case: &Value, keys: &[K], ds: &[(String, B)], out: &mut Outcome) {
     let r = match case["kind"].as_str().unwrap_or("") {
         "triple" => mc::catch(|| triple(&keys[g("a")], &keys[g("b")], &keys[g("c")])),
         "fwd" => mc::catch(|| forwarders(g("p") as u8, &keys[g("k")])),
+        "contains" => {
+            let bits: Vec<usize> = case["bits"].as_array().cloned().unwrap_or_default().iter().map(|v| v.as_u64().unwrap_or(0) as usize).collect();
+            let mut t = Table::new(keys[0].key, 2, Duration::from_secs(1));
+            mc::catch(|| membership(&mut t, &bits))
+        }
         "bucket" => mc::catch(|| bucket_laws(&keys[g("base")], &ds[g("d")].0, &ds[g("d")].1)),
         "make" => {
             let mut w = [0u8; 32];
@@ -315,7 +391,14 @@ fn replay(case: &Value, keys: &[K], ds: &[(String, B)], out: &mut Outcome) {
     };
     let r = r.unwrap_or_else(|p| Err(format!("panic :: {p}")));
     if let Err(m) = r {
-        let s = if case["kind"] == "bucket" { format!("{} [d={}]", sig(&m), ds[g("d")].0) } else { sig(&m) };
+        let s = if case["kind"] == "contains" {
+            let bits: Vec<u64> = case["bits"].as_array().cloned().unwrap_or_default().iter().map(|v| v.as_u64().unwrap_or(0)).collect();
+            let class = match bits.len() {
+                0 | 1 => "one bit or zero".to_string(),
+                _ => format!("second-highest relevant gap {} 64", if bits[1] - bits[0] >= 64 { ">=" } else { "<" }),
+            };
+            format!("contains [{} bits set, {class}]", bits.len())
+        } else if case["kind"] == "bucket" { format!("{} [d={}]", sig(&m), ds[g("d")].0) } else { sig(&m) };
         out.violation(s, m, case.clone());
     }
 }
